@@ -180,7 +180,17 @@ func init() {
 			cells = append(cells, &scen.Cell{ID: fmt.Sprintf("c08dot_%d", i), Family: "signature", Files: map[string]string{"setup.go": sb.String()}, Meta: c08Meta{Style: 9, Recv: 1, SrcImp: 1, Named: i}})
 		}
 		e.Rep.Bound("extra_args_max", maxArgs-1)
+		// operand names: receiver / parameter names over the F7 alphabet (blank, underscore, non-ASCII, keyword, and the
+		// names the generator invents itself: src, dst, err, arg0)
+		for _, c := range familyIdents() {
+			if c.Meta.(f7Meta).Kind == "operands" {
+				cells = append(cells, c)
+			}
+		}
 		e.Explore(cells, func(o *scen.Outcome, t *report.Tally) []report.Finding {
+			if fm, ok := o.Cell.Meta.(f7Meta); ok {
+				return e.c08Operands(o, fm, t)
+			}
 			m := o.Cell.Meta.(c08Meta)
 			if m.Style == 9 {
 				// dot-imported receiver type: documented as illegal (receiver of an imported type)
@@ -244,6 +254,67 @@ func init() {
 			return fs
 		})
 	})
+}
+
+// c08Operands judges one operand-name cell: plain names must be accepted; whatever is accepted must compile,
+// keep the declared (non-blank) names and give every operand a name of its own.
+func (e *Env) c08Operands(o *scen.Outcome, fm f7Meta, t *report.Tally) []report.Finding {
+	t.AddEvaluations(1)
+	t.AddValidated(1)
+	kind := "param"
+	if fm.HasRecv {
+		kind = "recv"
+	}
+	var fs []report.Finding
+	add := func(key, what string) {
+		fs = append(fs, report.Finding{Key: fmt.Sprintf("C08|operand-names|%s|%s|style=%d|reverse=%d|err=%d", key, kind, fm.Style, fm.Reverse, fm.MErr), What: what + " [" + fm.Variant + "]"})
+	}
+	if o.Res.Crashed() || o.Res.TimedOut {
+		add("crash", clip(o.Res.Stderr, 300))
+		return fs
+	}
+	if o.Res.Exit != 0 || !o.OutExists {
+		t.Family("signature/operand-names", false, false)
+		t.Outcome("operand-names: rejected")
+		if fm.mustAccept() {
+			add("plain-names-rejected", "plain operand names rejected: "+clip(e.scrub(o.Res.Stderr, o.Dir), 300))
+		} else if strings.TrimSpace(o.Res.Stderr) == "" {
+			add("rejected-silently", "rejected without a message")
+		}
+		return fs
+	}
+	c := e.WS.Uni.Check(e.WS.PkgPath(o.Cell), scen.OrdinaryFiles(o), nil)
+	g := outparse.Parse(c, "setup.gen.go")
+	if g == nil || len(g.Func("Conv")) != 1 || g.Func("Conv")[0].Obj == nil || c.FirstError() != "" {
+		add("accepted-does-not-compile", "accepted, but the output does not type-check: "+c.FirstError())
+		return fs
+	}
+	t.Family("signature/operand-names", true, true)
+	t.Nontrivial("names:" + fm.Variant)
+	t.Outcome("operand-names: accepted")
+	sig := g.Func("Conv")[0].Sig
+	names := map[string]int{}
+	if sig.RecvName != "" {
+		names[sig.RecvName]++
+	}
+	for _, p := range append(append([]outparse.Param(nil), sig.Params...), sig.Results...) {
+		names[p.Name]++
+	}
+	for n, k := range names {
+		if k > 1 || n == "" || n == "_" {
+			add("unusable-name", fmt.Sprintf("operand name %q occurs %d times in %s", n, k, sig.String()))
+		}
+	}
+	if fm.HasRecv && sig.RecvName != fm.Recv {
+		add("receiver-name", fmt.Sprintf("receiver is called %q, :recv asked for %q", sig.RecvName, fm.Recv))
+	}
+	if !fm.HasRecv && fm.Src != "" && fm.Src != "_" && names[fm.Src] == 0 {
+		add("parameter-name-lost", fmt.Sprintf("declared parameter name %q does not appear in %s", fm.Src, sig.String()))
+	}
+	if fm.Arg != "" && fm.Arg != "_" && names[fm.Arg] == 0 {
+		add("parameter-name-lost", fmt.Sprintf("declared parameter name %q does not appear in %s", fm.Arg, sig.String()))
+	}
+	return fs
 }
 
 func methodLine(setup string) string {
